@@ -39,6 +39,13 @@ interleaving is its stream when run alone) and judged by the statement itself (s
 reader's OWN source, once, in order, in chunks of 1..cs; requested and not yet delivered rows below cs + one row group).  Every
 reader is then driven ALONE through the operations addressed to it (c18_solo_case): a failure that the reader shows only in company
 is reported as `depends-on-other-readers` (the variant with one row-group cache for all readers: C18_shared_buffer_refuted).
+
+Loads that fail (props/c18_faults.py): the proxies make the k-th load attempted at the source raise (MemoryError, OSError with several
+errno values, TimeoutError, ValueError, KeyboardInterrupt, the errors of pyarrow, ...) once or from then on, at the first / a middle /
+the last chunk, during a pass over a reader object, during get_probe and during Catalog.from_* (sequentially and on the pool).  A pass
+in which a load failed has two acceptable outcomes: the exception reaches the caller, or every record is delivered exactly once in
+chunks of the requested size (Model/ChunksBuf.v:f_pass; C18_fault_pass_exactly_once; `halve the chunk size and rewind by the new size`
+is C18_fault_halve_rewind_refuted); a creation that raised leaves no catalog that opens.
 """
 import io
 import itertools
@@ -56,6 +63,7 @@ TRUSTED = [
     "logging proxies (harness side) around the data frame, h5py.File datasets and pyarrow ParquetFile; for FITS (Catalog.from_file and reader-history cases) a proxy around astropy's HDU list logs the row slices taken from a column (data[col][a:b]), not what astropy reads for data[col] (astropy memory-maps the table; library behaviour)",
     "the library's default chunk size is read from yaw.catalog.readers.CHUNKSIZE; the checkers evaluate it as max 1 n (C18_param_requests_by_value: the requests are the same for every chunk size that is not below the input length)",
     "several readers at a time: records are identified by their right ascension ((source * 1024 + row + 1) / 8192 rad, exact in float64, coordinates handed over in radians); the row groups a Parquet reader requests are logged by the proxy of the ParquetFile it was constructed with; what get_probe and Catalog.from_* read internally is not observed (their results are: rows of the probe, records stored)",
+    "loads that fail (props/c18_faults.py): the exception is raised by the harness's proxy in place of the source (data frame slice / column access, h5py dataset slice, slice of a FITS column, pyarrow read_row_group, call of the random generator), before the real load; a load = the requests of one slice to all columns; the chunk-level attempt of a failed load is counted as chunks delivered so far + loads failed so far in the pass; an exception counts as having reached the caller when the call raised anything; KeyboardInterrupt is told from a real one by the identity of the exception object",
     "simulated multiprocessing (harness/sim/pool.py) for the runs with 2-4 workers: Pool.map executes the tasks of one chunk in the calling process in a harness-chosen order, the writer process runs at join(); the sizes of the tasks of every Pool.map call are logged by a subclass of the simulated pool",
 ]
 ASSUMPTIONS = ["a new pass is recognised by a request that starts again at row 0 (Catalog.from_* cases; in the reader-history "
@@ -67,7 +75,10 @@ RULE = ("cases = (source, n, cs, patch mode incl. generated centres = 2 passes, 
         "write_patches | create_patch_centers + write_patches, workers); non-trivial when some complete pass starts "
         "from a partially consumed reader; "
         "worlds of readers = (kinds, lengths, row groups and chunk sizes of 2-3 readers, which of them share a source, the interleaved "
-        "list of operations); non-trivial when some operation is applied to a reader while ANOTHER reader is partially consumed")
+        "list of operations); non-trivial when some operation is applied to a reader while ANOTHER reader is partially consumed; "
+        "loads that fail = (kind, n, cs, row groups, index and step of the failing load, exception, once | from then on, route: pass by "
+        "for / next / list / progress display | get_probe | creation with patch mode, workers, older catalog); non-trivial when the "
+        "failing load was reached")
 HEADER = "From Verif Require Import Prelude Chunks ChunksBuf Writer.\nOpen Scope nat_scope.\n"
 
 
@@ -1969,12 +1980,17 @@ def run(ctx):
         idx += 1
     idx = history_cases(ctx, readers, terms, metas, idx)
     idx = world_cases(ctx, readers, terms, metas, idx)
+    from props import c18_faults
+    idx = c18_faults.run(ctx, readers, terms, metas, idx)
     metas.sort(key=lambda m: m[0])       # terms are appended in the order of their case numbers
     codes = ctx.shards("Cases_C18", HEADER, terms, shard=100)
     bycase = {i: c for (i, _), c in zip(metas, codes)}
     for (i, meta), c in zip(metas, codes):
         if meta.get("world"):
             world_verdict(ctx, i, c or 0, meta, bycase)
+            continue
+        if meta.get("fault"):
+            c18_faults.verdict(ctx, i, c or 0, meta)
             continue
         if not c or "world_solo" in meta:
             continue
